@@ -119,7 +119,7 @@ theorem drill_spec (c : Chart) (hf : ∀ s, c.fall s = false) (g : Cfg) (hg : g.
       have hlen := hdepth t tgt hi
       rw [drill, callInit_some ht hi]
       simp only [Bool.not_true, Bool.false_eq_true, if_false, hg, Bool.true_and, decide_eq_true_eq,
-        probeAny_eq_probe hf]
+        probeAny_eq_probe hf, noSuper_eq_false hf, Bool.and_false]
       by_cases good : t <:+ tgt ∧ t ≠ tgt
       · obtain ⟨h1, h2⟩ := good
         obtain ⟨m, hm1, hm2, hm3⟩ := proper_suffix_drop h1 h2
